@@ -102,6 +102,13 @@ class Program:
         for rel in self.overrides:
             if not any(m.relpath == rel for m in self.modules.values()):
                 raise AnalysisError(f"override for unknown module {rel}")
+        # one spelling for behaviour-preserving variants (canon.py); positions of the source are kept
+        if not os.environ.get("SRCHECK_NO_CANON"):
+            from .canon import canonicalise, package_signatures
+
+            signatures = package_signatures([m.tree for m in self.modules.values()])
+            for m in self.modules.values():
+                m.tree = canonicalise(m.tree, signatures)
 
     def with_override(self, relpath: str, src: str) -> "Program":
         over = dict(self.overrides)
